@@ -185,7 +185,8 @@ public:
   }
 
   std::size_t read(parse_context_stack_t& context,
-                   hash_type_t hash_type);
+                   hash_type_t hash_type,
+                   bool should_clear_xdata = true);
 
   bool has_xdata();
   void clear_xdata();
